@@ -312,7 +312,31 @@ def items_display(items):
     return ''.join(cells)
 
 
-def gen_stream(rng, modes=None, rich=False, lengths=None, tagged=True, italics=False, trailing=False):
+def erase_edits(rng, items, single=True):
+    """Rows with erased characters, keeping the displayed text's length: a letter typed twice with the second
+    one taken back by Backspace, or an extended character whose stand-in equals the letter in front of it
+    (both leave a run of equal letters in front of the erased cell)."""
+    items = [list(i) for i in items]
+    for _ in range(rng.choice([1, 1, 2])):
+        cand = [k for k in range(1, len(items)) if items[k - 1][0] == 'c' and items[k - 1][1].isalpha()
+                and items[k][0] == 'c' and (k + 1 >= len(items) or items[k + 1][0] == 'c')]
+        if not cand:
+            break
+        k = rng.choice(cand)
+        if rng.random() < 0.5:
+            items[k:k] = [['c', items[k - 1][1]], ['bs']]
+        else:
+            ch = rng.choice([c for c in EXT_POOL if E.STANDIN[c].isalpha()])
+            if single and k + 1 < len(items) and items[k + 1] == ['ext', ch]:
+                continue
+            items[k - 1] = ['c', E.STANDIN[ch]]
+            if k >= 2 and items[k - 2][0] == 'c' and items[k - 2][1] != ' ' and rng.random() < 0.5:
+                items[k - 2] = ['c', E.STANDIN[ch]]
+            items[k] = ['ext', ch]
+    return items
+
+
+def gen_stream(rng, modes=None, rich=False, lengths=None, tagged=True, italics=False, trailing=False, edits=False):
     """A stream of roll-up / paint-on (and optionally a final pop-on) segments.
     -> {'doubled', 'drop', 'start_frame', 'segments': [{'mode': 'roll'|'paint'|'pop', ...}]}"""
     doubled = rng.random() < 0.5
@@ -353,6 +377,8 @@ def gen_stream(rng, modes=None, rich=False, lengths=None, tagged=True, italics=F
                 col = rng.choice([0, 0, 4, 8])
                 t = row_text(32 - col if not lengths else 40)
                 row = {'col': col, 'items': text_items(rng, t, rich, single), 'gap': rng.choice([0, 1, 5, 20, 60])}
+                if edits and rng.random() < 0.5:
+                    row['items'] = erase_edits(rng, row['items'], single)
                 if italics and rng.random() < 0.5:
                     if rng.random() < 0.5:
                         row['italic'] = True
@@ -375,6 +401,8 @@ def gen_stream(rng, modes=None, rich=False, lengths=None, tagged=True, italics=F
                     col = rng.choice([0, 0, 4])
                     t = row_text(32 - col if not lengths else 40)
                     line['rows'].append({'row': r, 'col': col, 'items': text_items(rng, t, rich, single)})
+                    if edits and rng.random() < 0.5:
+                        line['rows'][-1]['items'] = erase_edits(rng, line['rows'][-1]['items'], single)
                 seg['lines'].append(line)
             st['segments'].append(seg)
         else:
@@ -390,6 +418,8 @@ def gen_stream(rng, modes=None, rich=False, lengths=None, tagged=True, italics=F
                     col = rng.choice([0, 0, 4])
                     t = row_text(32 - col if not lengths else 40)
                     cap['rows'].append({'row': r, 'col': col, 'items': text_items(rng, t, rich, single)})
+                    if edits and rng.random() < 0.5:
+                        cap['rows'][-1]['items'] = erase_edits(rng, cap['rows'][-1]['items'], single)
                 seg['captions'].append(cap)
             st['segments'].append(seg)
     return st
